@@ -25,6 +25,12 @@ func init() {
 			}
 			p.Quick = append(p.Quick, HRun{Entry: "HarnessC17RefImpliesPath", Args: []int64{int64(L)}, Bound: "all patterns of length L"})
 		}
+		for _, ref := range []bool{true, false} {
+			p.Quick = append(p.Quick, HRun{Entry: "HarnessC17GlobSmall", Args: []int64{4, b2i(ref)}, Bound: "all 15^4 patterns over the syntax-relevant alphabet", Require: []string{"reject", "accept"}})
+			p.Quick = append(p.Quick, HRun{Entry: "HarnessC17GlobSmall", Args: []int64{5, b2i(ref)}, Bound: "all 15^5 patterns over the syntax-relevant alphabet", Require: []string{"reject", "accept"}})
+			p.Thorough = append(p.Thorough, HRun{Entry: "HarnessC17GlobSmall", Args: []int64{5, b2i(ref)}, Bound: "all 15^5 patterns over the syntax-relevant alphabet", Require: []string{"reject", "accept"}})
+			p.Thorough = append(p.Thorough, HRun{Entry: "HarnessC17GlobSmall", Args: []int64{6, b2i(ref)}, Bound: "all 15^6 patterns over the syntax-relevant alphabet", Require: []string{"reject", "accept"}})
+		}
 		for L := 0; L <= 4; L++ {
 			for _, ref := range []bool{true, false} {
 				p.Thorough = append(p.Thorough, HRun{Entry: "HarnessC17Glob", Args: []int64{int64(L), b2i(ref)}, Bound: "all 256^L patterns of length L", Require: []string{"reject"}})
@@ -288,9 +294,11 @@ func init() {
 		p.Quick = []HRun{
 			{Entry: "HarnessC09Frozen", Args: []int64{2}, Bound: "every chain base(12) + 2 segments(6 each) + symbolic property letter: no write to the job's scope types or built-in tables while it is checked", Require: []string{"checked"}},
 			{Entry: "HarnessC09Exprs", Args: []int64{2, 1}, Bound: "all pairs (earlier chain of depth 2, later chain of depth 1) in one job", Require: []string{"compared"}},
-			{Entry: "HarnessC09Jobs", Bound: "all ordered pairs of 7 job variants x both iteration orders of the jobs map", Require: []string{"compared"}},
+			{Entry: "HarnessC09Jobs", Bound: "all ordered pairs of 11 job variants x both iteration orders of the jobs map", Require: []string{"compared"}},
+			{Entry: "HarnessC09FrozenJobs", Bound: "each of 11 job variants visited with the workflow-level scope types and built-in tables frozen; per-job scope reset", Require: []string{"visited"}},
 		}
 		p.Thorough = []HRun{
+			{Entry: "HarnessC09FrozenJobs", Bound: "each job variant with frozen workflow-level scope types", Require: []string{"visited"}},
 			{Entry: "HarnessC09Frozen", Args: []int64{3}, Bound: "chains with 3 segments + symbolic property letter", Require: []string{"checked"}},
 			{Entry: "HarnessC09Exprs", Args: []int64{2, 2}, Bound: "all pairs of chains of depth 2 (186624 pairs)", Require: []string{"compared"}},
 			{Entry: "HarnessC09Exprs", Args: []int64{3, 1}, Bound: "earlier chain of depth 3, later of depth 1", Require: []string{"compared"}},
